@@ -455,8 +455,8 @@ class Interp:
         body_st = st
         loop_targets = {n.id for n in ast.walk(node.target) if isinstance(n, ast.Name)}
         for k in assigned - loop_targets:
-            # value from earlier iterations is unknown, but keep None-ness unknown too
-            body_st.env[k] = Opaque("loop-carried")
+            # value carried over from earlier iterations: an opaque symbol (its None-ness is unknown too)
+            body_st.env[k] = Num(A("carried", k))
         if elem is None:
             elem = Opaque("filtered element")
         if enum_val is not None and isinstance(node.target, ast.Tuple) and len(node.target.elts) == 2:
@@ -886,7 +886,7 @@ class Interp:
                     dflt = [kw for kw in node.keywords if kw.arg == "default"]
                     if dflt:
                         dv = self.expr(dflt[0].value, st)
-                        return Obj("ite", (("nonempty", repr(s)), red, dv))
+                        return Obj("ite", (("nonempty", s.var, s.count, s.filt), red, dv))
                     st.site("reduce-maybe-empty", node, seq=s, what=name)
                     return red
             if all(isinstance(v, Num) for v in vals) and vals:
